@@ -332,11 +332,20 @@ def r34(rep, prog):
     mb = get_body(rep, prog, "C04-R3", I + "merger::IndexMerger::write")
     if mb is not None:
         roots = {}
+        gone_writers = []
         for callee, ai in ((I + "merger::IndexMerger::write_fieldnorms", 2), (I + "merger::IndexMerger::write_postings", 3),
                            (I + "merger::IndexMerger::write_storable_fields", 2), (I + "merger::IndexMerger::write_fast_fields", 2)):
             cs = calls_to(prog, mb, {callee})
-            if cs:
+            if cs and callee in prog.bodies:
                 roots[callee.split("::")[-1]] = option_root(mb, cs[0][1]["args"][ai])
+            elif cs:
+                gone_writers.append((callee.split("::")[-1], cs))
+        for nm, cs in gone_writers:
+            # the writer was written into IndexMerger::write: the mapping is then an argument of one of the calls it made
+            common = set(roots.values())
+            cand = {option_root(mb, a) for _, t in cs for a in t["args"]}
+            if len(common) == 1 and common & cand:
+                roots[nm] = list(common)[0]
         vals = set(roots.values())
         rep.check(len(roots) == 4 and len(vals) == 1 and list(vals)[0][0] == "local", "C04-R3", "the four merge writers receive the same doc_id_mapping", "%s" % roots,
                   "IndexMerger::write hands different mappings to its writers (%s)" % roots, site=mb.span)
